@@ -52,7 +52,9 @@ class TapeRandom:
     def random(self):
         v = self._next("u")
         if v is None:
-            v = Fraction(self.rng.randrange(2 ** self.unif_bits), 2 ** self.unif_bits)
+            # odd numerator over 2^(bits+1): never equal to a threshold built from the small-denominator rates and
+            # weights of the generators, so float and exact comparisons agree
+            v = Fraction(2 * self.rng.randrange(2 ** self.unif_bits) + 1, 2 ** (self.unif_bits + 1))
         else:
             v = Fraction(v)
         self.log.append(["u", str(v)])
